@@ -75,6 +75,7 @@ func TestTempTries(t *testing.T) {
 	}
 	out := vh.NewResult()
 	defer out.Write()
+	defer guard(out, "TestTempTries", in)
 	seed := in.Seed
 	if seed == 0 {
 		seed = vh.Seed()
@@ -83,7 +84,7 @@ func TestTempTries(t *testing.T) {
 	if len(sizes) == 0 {
 		sizes = []int{0, 1, 2, 3, 4, 5, 7, 8, 9, 16, 17, 33, 100, 101, 102, 150, 257}
 		if vh.Thorough() {
-			sizes = append(sizes, 6, 31, 32, 64, 65, 128, 129, 300, 513, 1000)
+			sizes = append(sizes, 6, 31, 32, 64, 65, 128, 129, 300, 513, 1000, 131073)
 		}
 	}
 	backends := []struct {
@@ -91,7 +92,7 @@ func TestTempTries(t *testing.T) {
 		b    core.TempTrieBackend
 	}{{"trie2", core.TrieBackend}, {"legacy", core.DeprecatedTrieBackend}}
 	report := func(key, what string, n int, exp, obs string) {
-		out.Diverge(vh.Divergence{Key: key, What: what, Step: n, Expected: exp, Observed: obs, Input: tempInput{Sizes: []int{n}, Seed: seed}})
+		diverge(out, vh.Divergence{Key: key, What: what, Step: n, Expected: exp, Observed: obs, Input: tempInput{Sizes: []int{n}, Seed: seed}})
 	}
 	for _, n := range sizes {
 		r := rand.New(rand.NewSource(seed*104729 + int64(n)))
@@ -101,6 +102,9 @@ func TestTempTries(t *testing.T) {
 			vals[i] = *rf(r)
 		}
 		for _, poseidon := range []bool{false, true} {
+			if n > 2000 && !poseidon {
+				continue // the > 131072-entry trie is hashed with Poseidon only (cost)
+			}
 			h, hn := refimpl.HashFn(refimpl.Pedersen), "pedersen"
 			if poseidon {
 				h, hn = refimpl.Poseidon, "poseidon"
@@ -199,6 +203,7 @@ func TestTrieBulk(t *testing.T) {
 	}
 	out := vh.NewResult()
 	defer out.Write()
+	defer guard(out, "TestTrieBulk", in)
 	seeds := in.Seeds
 	if len(seeds) == 0 {
 		n := 3
@@ -215,17 +220,19 @@ func TestTrieBulk(t *testing.T) {
 		for i := range pos {
 			pos[i] = i
 		}
-		v := variant{Height: 251, Pos: pos, Pad: "0", Poseidon: seed%2 == 0, Flush: seed%3 == 0, Owner: seed%2 == 1, ValSeed: seed}
+		v := variant{Height: 251, Pos: pos, Pad: "0", Poseidon: seed%2 == 0, Flush: seed%3 == 0, Owner: seed%2 == 1, ValSeed: seed, Poison: seed%2 == 1}
 		report := func(key, what string, round int, exp, obs string) {
-			out.Diverge(vh.Divergence{Key: key, What: what, Step: round, Expected: exp, Observed: obs, Input: bulkInput{Seeds: []int64{seed}}})
+			diverge(out, vh.Divergence{Key: key, What: what, Step: round, Expected: exp, Observed: obs, Input: bulkInput{Seeds: []int64{seed}}})
 		}
 		leg, err := newLegacy(&v)
 		if err != nil {
-			t.Fatal(err)
+			report("trie-error:legacy:open", err.Error(), 0, "", "")
+			continue
 		}
 		t2, err := newT2(&v)
 		if err != nil {
-			t.Fatal(err)
+			report("trie-error:trie2:open", err.Error(), 0, "", "")
+			continue
 		}
 		hash := refimpl.HashFn(refimpl.Pedersen)
 		if v.Poseidon {
@@ -265,7 +272,7 @@ func TestTrieBulk(t *testing.T) {
 					keys = append(keys, k)
 				}
 				kf := new(felt.Felt).SetBigInt(k)
-				if err := leg.put(kf, val); err != nil {
+				if _, err := leg.put(kf, val); err != nil {
 					report("trie-error:legacy:bulk", err.Error(), round, "", "")
 					bad = true
 					break
